@@ -110,13 +110,14 @@ PROPS["C05"] = {
                          "everything of vm.rs / wasm.rs that is not cut (Machine::execute, wasmtime plumbing)"],
 }
 PROPS["C12"] = {
-    "verus_units": ["heap", "usersum", "closures", "upvalues"],
+    "verus_units": ["heap", "usersum", "closures", "upvalues", "mirgen_rc"],
     "replay": "boxed",
     "replay_units": ["usersum"],
     "kani_units": [RUNTIME_C12],
-    "floor": {"obligations": 54},
+    "floor": {"obligations": 62},
     "trusted_base": [
         "unit closures, rule X4: the VM's reference-counting instruction arms CloneHeap / BoxClone / BoxRelease / BoxAlloc / MakeHeapClosure / Closure are cut verbatim out of Machine::execute and re-headed as methods (their local frame lists become `&mut Vec` parameters); get_stack / set_stack / get_stack_range are ABSTRACTED (the word read is unconstrained, a register write touches neither heap nor closures); get_as::<HeapIdx> / to_value (transmutes) as handle_of; try_get_heap_backed_closure / try_get_direct_closure cut verbatim and verified; heap_retain as the map transformer proved in unit heap; SlotMap::get_mut model; <[T]>::to_vec specification",
+        "unit mirgen_rc (compiler side): insert_clone_recursively / insert_release_recursively of mirgen.rs cut verbatim (rule N7forenum for their `for (i, x) in v.iter().enumerate()` loops; `resolved != ty` on the slot-map key as vx_ne); TRUSTED model of the interned types (the six variants the inserters distinguish + Other; finite type trees and progress of alias resolution: axiom_rank); push_inst as a ghost log of the reference-count instructions by kind; mir::Instruction cut verbatim",
         "unit upvalues: the first filter_map closure of close_upvalues_by_idx and of drop_closure cut as functions (`upv.borrow_mut()` / `v.borrow()` on the shared Rc<RefCell<UpValue>> cell become a `&mut UpValue` / `&UpValue` parameter); Machine::get_open_upvalue (unsafe slice of the stack) as an abstract read of `size` words; UpValue / OpenUpValue cut verbatim",
         "unit usersum: model of the interned types (TypeNodeId::to_type/word_size, a `Type` enum with the five variants the walkers distinguish and `Other` for the rest; type trees are finite: axiom_rank), heap functions as callee contracts with a ghost operation log, Machine::get_as::<HeapIdx> (transmute) as handle_of, vx_find_usersum for the type_table lookup (`iter().find(.. matches! ..)`)",
         "release_usersum_recursive is verified for partial correctness only (exec_allows_no_decreases_clause): it follows handles into heap objects while freeing, termination depends on the heap being acyclic",
@@ -129,10 +130,10 @@ PROPS["C12"] = {
                     "data-structure invariant heap_wf (every live object has refcount >= 1 and size == data.len()) holds on entry; it is established by HeapObject::{new,with_data} and preserved by all three operations (proved)",
                     "heap_retain: refcount < u64::MAX (2^64 retains of one object cannot occur)"],
     "not_covered": [
-        "whether the compiler emits balanced Clone/Release/Close (insert_*_recursively in mirgen.rs); the rest of drop_closure and close_upvalues_by_idx (resolving the raw references to closures, the retain / recursive release loops over Rc<RefCell<UpValue>> cells: assumed transformer in unit closures) -- their per-cell visitors are under contract (unit upvalues)",
+        "WHERE the compiler calls the two inserters (that every duplication of a value is matched by one release on every path: the ~30 call sites in mirgen.rs) -- the inserters themselves are under contract (unit mirgen_rc); insert_close_closures_recursively; the rest of drop_closure and close_upvalues_by_idx (resolving the raw references to closures, the retain / recursive release loops over Rc<RefCell<UpValue>> cells: assumed transformer in unit closures) -- their per-cell visitors are under contract (unit upvalues)",
         "boundedness of live closures/objects over time: a whole-history property of generated programs",
     ],
-    "explanation": "C12: (upvalue cells, unit upvalues) the reference a closure holds on a captured closure lives in an upvalue cell; close_upvalues_by_idx's per-cell visitor closes the cell and yields EXACTLY the reference the closed cell holds (also for a cell a sibling closure closed before), drop_closure's per-cell visitor yields exactly that reference again: what is retained at close time is what is released at drop time, cell by cell (lemma_retain_release_pair); (VM instruction arms, cut from Machine::execute) CloneHeap takes one more reference on a heap closure wrapper TOGETHER with one on the closure it wraps (or one on a direct closure handle; nothing for any other word); BoxClone / BoxRelease move exactly one reference of exactly the named boxed object (retained_map / released_map; lemma_box_clone_release: a clone followed by a release restores the heap); BoxAlloc creates one fresh object with one reference and the requested number of words and touches nothing else; MakeHeapClosure / Closure record the fresh wrapper / open closure in the frame's release lists exactly once -- the lists release_heap_closures / release_open_closures walk at scope exit; (closures) at scope exit release_heap_closures releases every recorded wrapper exactly once, in order, dropping the wrapped closure exactly when it has not escaped (rel_all over rel_hc, relative to the assumed drop_closure transformer); release_open_closures drops exactly the still-open closures; allocate_heap_closure yields a fresh one-reference wrapper `[handle]` naming a fresh live open closure; get_closure's unchecked access is safe under key liveness. (usersum) the two type-directed walkers agree on WHERE the heap handles of a value are: `slots(ty, data)` is the layout function (boxed / type-alias word, tag-selected variant payload, tuple and record fields at prefix-sum offsets); clone_usersum_recursive retains exactly slots(ty,data), once each, in order; release_usersum_recursive releases every handle of slots(ty,data) (log monotone); heap-object clause: heap_retain / heap_release / heap_release_closure proved against the abstract map view (exact effect, frame, no arithmetic underflow, last release removes the object and the handle no longer resolves); balance lemma over the contracts (ghost history); the same contracts checked bit-precisely on the real slotmap by Kani with a bounded population.",
+    "explanation": "C12: (compiler side, unit mirgen_rc) the two type-directed inserters emit, for a value of any type, exactly clone_ops(ty) resp. release_ops(ty) -- one BoxClone / BoxRelease per boxed component, one CloneUserSum / ReleaseUserSum per user-sum component, one CloneHeap / CloseHeapClosure per function-typed component, tuple and record fields in order, aliases resolved -- and lemma_release_matches_clone shows that what is released is, position by position, the counterpart of what is cloned (the function-typed counterpart is CloseHeapClosure, which is not an inverse: known finding F13); (upvalue cells, unit upvalues) the reference a closure holds on a captured closure lives in an upvalue cell; close_upvalues_by_idx's per-cell visitor closes the cell and yields EXACTLY the reference the closed cell holds (also for a cell a sibling closure closed before), drop_closure's per-cell visitor yields exactly that reference again: what is retained at close time is what is released at drop time, cell by cell (lemma_retain_release_pair); (VM instruction arms, cut from Machine::execute) CloneHeap takes one more reference on a heap closure wrapper TOGETHER with one on the closure it wraps (or one on a direct closure handle; nothing for any other word); BoxClone / BoxRelease move exactly one reference of exactly the named boxed object (retained_map / released_map; lemma_box_clone_release: a clone followed by a release restores the heap); BoxAlloc creates one fresh object with one reference and the requested number of words and touches nothing else; MakeHeapClosure / Closure record the fresh wrapper / open closure in the frame's release lists exactly once -- the lists release_heap_closures / release_open_closures walk at scope exit; (closures) at scope exit release_heap_closures releases every recorded wrapper exactly once, in order, dropping the wrapped closure exactly when it has not escaped (rel_all over rel_hc, relative to the assumed drop_closure transformer); release_open_closures drops exactly the still-open closures; allocate_heap_closure yields a fresh one-reference wrapper `[handle]` naming a fresh live open closure; get_closure's unchecked access is safe under key liveness. (usersum) the two type-directed walkers agree on WHERE the heap handles of a value are: `slots(ty, data)` is the layout function (boxed / type-alias word, tag-selected variant payload, tuple and record fields at prefix-sum offsets); clone_usersum_recursive retains exactly slots(ty,data), once each, in order; release_usersum_recursive releases every handle of slots(ty,data) (log monotone); heap-object clause: heap_retain / heap_release / heap_release_closure proved against the abstract map view (exact effect, frame, no arithmetic underflow, last release removes the object and the handle no longer resolves); balance lemma over the contracts (ghost history); the same contracts checked bit-precisely on the real slotmap by Kani with a bounded population.",
     "samples": [
         {"obligation": "heap_release::ensures", "clause": "rc==1 ==> storage' == storage.remove(idx) && !storage'.contains_key(idx)"},
         {"obligation": "lemma_balance", "clause": "run(Some(n), ops) == Some(n + retains(ops) - releases(ops)) while every prefix releases fewer than exist"},
